@@ -70,7 +70,8 @@ pub fn format_dividend(
 
 /// Format a comment line
 pub fn format_comment(text: &str) -> String {
-    format!("# {}", text)
+    // A comment must stay on its own line whatever the broker put in the field.
+    format!("# {}", text.replace(['\r', '\n'], " "))
 }
 
 /// Generate header comments for a converted file
